@@ -495,7 +495,17 @@ func (rp *recvProp) run(c Case, component bool, smid string, n0 int, rng *rand.R
 // machine such a goroutine can still be waiting for a processor when the goroutine count has already fallen back to the
 // baseline (other goroutines of the case end too). Wait (at most 2 s more) until as many stanzas were routed as were
 // counted. A library that counts wrongly only makes this wait useless, not the observation wrong.
+var awaitRoutedTimeouts = 0
+
 func awaitRouted(mu *sync.Mutex, routed *[]string, want int) {
+	if awaitRoutedTimeouts >= 3 {
+		return // the library counts what it does not route: waiting again would only cost 2 s per case
+	}
+	defer func(t0 time.Time) {
+		if time.Since(t0) >= 2*time.Second {
+			awaitRoutedTimeouts++
+		}
+	}(time.Now())
 	deadline := time.Now().Add(2 * time.Second)
 	for time.Now().Before(deadline) {
 		mu.Lock()
